@@ -55,9 +55,13 @@ def rec_fit(args):
         cx -= 32.0
     elif c.get('frame') == 'nearbottom':
         cy -= 32.0
-    big = c.get('frame') == 'large'       # a large frame fitted out to sma 75 (model images of large ellipses)
+    big = c.get('frame') in ('large', 'largeleft', 'largebottom')       # a large frame fitted out to sma 65 (large sectors, model images of large ellipses)
     if big:
         shape = (201, 201); cx += 55.0; cy += 55.0
+        if c['frame'] == 'largeleft':      # ... with the galaxy 40 px from the left / bottom border
+            cx -= 60.0
+        elif c['frame'] == 'largebottom':
+            cy -= 60.0
     sc = 2.5 if big else 1.0              # scale of the galaxy and of the sma range
     img = galaxy(eps, pa, c['law'], cx, cy, shape=shape) if not big else galaxy_scaled(eps, pa, c['law'], cx, cy, shape, sc)
     img0 = img.copy()
@@ -155,9 +159,10 @@ def run(ctx):
     rng.shuffle(lat)
     # stratified: a quarter of the sample starts with the position angle perpendicular to the truth
     perp = [c for c in lat if c.get('start') == 'perp']
-    edge = [c for c in lat if c.get('start') != 'perp' and c['frame'] in ('nearleft', 'nearbottom')]
+    edge = [c for c in lat if c.get('start') != 'perp' and c['frame'] in ('nearleft', 'nearbottom', 'largeleft', 'largebottom')]
+    edge.sort(key=lambda c: c['frame'].startswith('large') and c['mode'] in ('mean', 'median'), reverse=True)       # large sectors first
     large = [c for c in lat if c.get('start') != 'perp' and c['frame'] == 'large']
-    near = [c for c in lat if c.get('start') != 'perp' and c['frame'] not in ('nearleft', 'nearbottom', 'large')]
+    near = [c for c in lat if c.get('start') != 'perp' and c['frame'] not in ('nearleft', 'nearbottom', 'large', 'largeleft', 'largebottom')]
     nq = 96 if q else 1200
     lat = near[: nq - nq // 4 - nq // 8 - nq // 12] + perp[: nq // 4] + edge[: nq // 8] + large[: nq // 12]
     recs = core.pmap(rec_fit, list(enumerate(lat)), chunksize=1, on_raise='drop')
